@@ -6,9 +6,9 @@
 package hx
 
 import (
-	"os"
 	"context"
 	"fmt"
+	"os"
 	"sync"
 
 	"github.com/relab/hotstuff"
@@ -45,7 +45,7 @@ func (Quiet) Infof(t string, a ...any) {
 		fmt.Fprintf(os.Stderr, "[info] "+t+"\n", a...)
 	}
 }
-func (Quiet) Panic(a ...any)         { panic(fmt.Sprint(a...)) }
+func (Quiet) Panic(a ...any) { panic(fmt.Sprint(a...)) }
 func (Quiet) Panicf(t string, a ...any) {
 	panic(fmt.Sprintf(t, a...))
 }
